@@ -4,4 +4,6 @@ INVARIANT InvAccIsPreAgg
 INVARIANT InvCdfMonotone
 INVARIANT InvPitRange
 INVARIANT InvExpandSound
+INVARIANT InvWindowIsSpell
+INVARIANT InvWindowBounded
 CHECK_DEADLOCK FALSE
